@@ -291,7 +291,7 @@ func derivedFromMsgString(rs recvSite, v ssa.Value) bool {
 }
 
 func checkC11(c *Ctx) {
-	c.Explanation = "Decides the happens-before structure that the property needs: for the message-handling entry points of displayrtcm3 and rtcmfilter, every goroutine that writes to the entry point's writer parameter (J1) signals a join object (deferred close / WaitGroup.Done) only after its last write, (J2) is waited for on every path from its go statement to every return of the entry point, (J3) after its input channel has been closed, (J4) does not delegate writing to a further goroutine, (J5) has its WaitGroup.Add before the go statement; the consumer loop writes each received message synchronously before its next receive and leaves only on the closed channel or a failed write; the pipeline call that produces the messages precedes the close.  Without such a join some schedule loses the tail; with it none can (given C09's fan-out rules, evaluated here too)."
+	c.Explanation = "Decides the happens-before structure that the property needs: for the message-handling entry points of displayrtcm3 and rtcmfilter, every goroutine that writes to the entry point's writer parameter (J1) signals a join object (deferred close / WaitGroup.Done) only after its last write, (J2) is waited for on every path from its go statement to every return of the entry point, (J3) after its input channel has been closed, (J4) does not delegate writing to a further goroutine, (J5) has its WaitGroup.Add before the go statement; the consumer loop writes each received message synchronously before its next receive and leaves only on the closed channel or a failed write; the pipeline call that produces the messages precedes the close.  Without such a join some schedule loses the tail; with it none can (given C09's fan-out rules, evaluated here too). (R3, continued) once a writer goroutine has been started, and until all of them have been joined, the entry point neither calls a method of the writer nor converts it to another interface."
 	c.NotDecided = "that the writer's Write is itself synchronous (os.Stdout, bytes.Buffer are; a caller-supplied asynchronous writer is outside the property); scheduler and memory-model semantics."
 	P := c.P
 	for _, app := range []string{"apps/displayrtcm3", "apps/rtcmfilter"} {
@@ -309,6 +309,100 @@ func checkC11(c *Ctx) {
 			c.Fail("C11-R1", app+":writer-goroutine", F.Pos(), "unresolved", "no goroutine writing to the writer parameter found in "+P.FnKey(F))
 		}
 		ruleProducerBeforeClose(c, "C11-R3", F, app)
+		// once a writer goroutine has been started the entry point itself only hands the writer on: it
+		// neither calls a method of it nor converts it (closing the output, or writing to it, beside
+		// the goroutines defeats the join: the last Write can be cut off or overtaken)
+		okUse := true
+		// the parameter and, when closures capture it, the loads of its spill slot
+		uses := referrers(w)
+		for _, r := range referrers(w) {
+			if st, ok := r.(*ssa.Store); ok && st.Val == ssa.Value(w) {
+				if al, ok := st.Addr.(*ssa.Alloc); ok {
+					for _, r2 := range referrers(al) {
+						if ld, ok := r2.(*ssa.UnOp); ok && ld.Op == token.MUL {
+							uses = append(uses, referrers(ld)...)
+						}
+					}
+				}
+			}
+		}
+		isW := func(v ssa.Value) bool {
+			if v == ssa.Value(w) {
+				return true
+			}
+			if ld, ok := v.(*ssa.UnOp); ok && ld.Op == token.MUL {
+				if al, ok := ld.X.(*ssa.Alloc); ok {
+					for _, r := range referrers(al) {
+						if st, ok := r.(*ssa.Store); ok && st.Val == ssa.Value(w) {
+							return true
+						}
+					}
+				}
+			}
+			return false
+		}
+		var gos []ssa.Instruction
+		eachInstr(F, func(ins ssa.Instruction) {
+			if _, ok := ins.(*ssa.Go); ok {
+				gos = append(gos, ins)
+			}
+		})
+		// "before": no writer goroutine can have been started yet, i.e. no path leads from a go
+		// statement to the instruction (a heading written in a loop does not dominate what follows)
+		beforeAllGo := func(ins ssa.Instruction) bool {
+			for _, g := range gos {
+				if pathBetween(g, ins) {
+					return false
+				}
+			}
+			return true
+		}
+		var waits []ssa.Instruction
+		eachInstr(F, func(ins ssa.Instruction) {
+			if call, ok := ins.(*ssa.Call); ok && calleeFullName(call.Call.StaticCallee()) == "(*sync.WaitGroup).Wait" {
+				waits = append(waits, ins)
+			}
+			if u, ok := ins.(*ssa.UnOp); ok && u.Op == token.ARROW {
+				waits = append(waits, ins)
+			}
+		})
+		afterAllWaits := func(ins ssa.Instruction) bool {
+			if len(waits) == 0 {
+				return false
+			}
+			for _, wt := range waits {
+				if !instrDominates(wt, ins) {
+					return false
+				}
+			}
+			return true
+		}
+		for _, r := range uses {
+			ins, isIns := r.(ssa.Instruction)
+			if !isIns || ins.Parent() != F {
+				continue
+			}
+			if beforeAllGo(ins) || afterAllWaits(ins) {
+				continue // a heading written before any writer goroutine exists, a footer after they are joined
+			}
+			switch x := r.(type) {
+			case *ssa.DebugRef, *ssa.MakeClosure, *ssa.Store, *ssa.Go, *ssa.Phi, *ssa.MakeInterface, *ssa.ChangeInterface:
+				if ci, isCI := r.(*ssa.ChangeInterface); isCI && ci.Type().String() != w.Type().String() {
+					okUse = false
+				}
+			case *ssa.Call:
+				if x.Call.IsInvoke() && isW(x.Call.Value) {
+					okUse = false
+					c.Fail("C11-R3", app+":entry-point-leaves-writer-alone", x.Pos(), "refuted", "the entry point calls "+x.Call.Method.Name()+" on the output writer itself, beside the writer goroutines: output can be cut off or overtaken before the goroutines are joined")
+				}
+			case *ssa.TypeAssert:
+				okUse = false
+				c.Fail("C11-R3", app+":entry-point-leaves-writer-alone", x.Pos(), "refuted", "the entry point converts the output writer to another interface (to close or flush it) beside the writer goroutines: output can be cut off before the goroutines are joined")
+			}
+		}
+		if okUse {
+			c.OK("C11-R3", app+":entry-point-leaves-writer-alone", F.Pos(), "the writer is only handed to the writer goroutines")
+		}
 	}
 	// C11-R2 consumer loops
 	if fn := P.Func("apps/displayrtcm3", "DisplayMessages"); fn != nil {
